@@ -1,5 +1,6 @@
 import CarModel.Proofs.Transform
 import CarModel.Proofs.FactsTie
+import CarModel.Proofs.ReplaceRootsV2
 /-
 C10 — Container transforms preserve the payload byte-for-byte.
 `x` ranges over all byte strings (extraction does not look inside the payload) or, for wrapping, over
@@ -140,6 +141,30 @@ theorem replaceRoots_same_len_v1 (maxHeader : Nat) (roots newRoots : Option (Lis
   rw [writeAt_within _ _ 0 (by simp [heq])]
   simp only [List.take_zero, List.nil_append, Nat.zero_add]
   rw [← heq, List.drop_left' rfl]
+
+/-- (6') The same on a CARv2 file (any paddings, with or without index): the inner CARv1 header is found
+    through DataOffset; a new header of another encoded length is refused and the file is untouched. -/
+theorem replaceRoots_reject_v2 (maxHeader dp ip : Nat) (roots newRoots : Option (List Cid)) (secs : Bytes)
+    (hasIdx fi : Bool) (index : Bytes)
+    (hwf : (CarHeader.mk roots 1).wf) (hmax : (encodeHeaderBody ⟨roots, 1⟩).length ≤ maxHeader)
+    (h63 : (encodeHeaderBody ⟨roots, 1⟩).length < 2 ^ 63) (h10 : 10 ≤ maxHeader)
+    (lok : LayoutOK dp ip (encodeHeader ⟨roots, 1⟩ ++ secs).length)
+    (hne : (encodeHeader ⟨roots, 1⟩).length ≠ (encodeHeader ⟨newRoots, 1⟩).length) :
+    replaceRoots maxHeader (layoutV2 dp ip (encodeHeader ⟨roots, 1⟩ ++ secs) hasIdx fi index) newRoots
+      = (.error .other, layoutV2 dp ip (encodeHeader ⟨roots, 1⟩ ++ secs) hasIdx fi index) :=
+  replaceRoots_reject_v2' maxHeader dp ip roots newRoots secs hasIdx fi index hwf hmax h63 h10 lok hne
+
+/-- (7') … and one of the same length changes exactly the inner header: the result is the layout of the
+    payload under the new header — CARv2 header fields, paddings, sections and index untouched. -/
+theorem replaceRoots_same_len_v2 (maxHeader dp ip : Nat) (roots newRoots : Option (List Cid)) (secs : Bytes)
+    (hasIdx fi : Bool) (index : Bytes)
+    (hwf : (CarHeader.mk roots 1).wf) (hmax : (encodeHeaderBody ⟨roots, 1⟩).length ≤ maxHeader)
+    (h63 : (encodeHeaderBody ⟨roots, 1⟩).length < 2 ^ 63) (h10 : 10 ≤ maxHeader)
+    (lok : LayoutOK dp ip (encodeHeader ⟨roots, 1⟩ ++ secs).length)
+    (heq : (encodeHeader ⟨roots, 1⟩).length = (encodeHeader ⟨newRoots, 1⟩).length) :
+    replaceRoots maxHeader (layoutV2 dp ip (encodeHeader ⟨roots, 1⟩ ++ secs) hasIdx fi index) newRoots
+      = (.ok (), layoutV2 dp ip (encodeHeader ⟨newRoots, 1⟩ ++ secs) hasIdx fi index) :=
+  replaceRoots_same_len_v2' maxHeader dp ip roots newRoots secs hasIdx fi index hwf hmax h63 h10 lok heq
 
 /-- Non-vacuity: the layout side condition holds for a small payload. -/
 example : LayoutOK 7 3 100 := ⟨by decide, by decide, by decide⟩
